@@ -406,7 +406,7 @@ def run_variants(case, ctx):
 
 
 def enum_large(tier, seed):
-    sizes = [130, 300] if tier == "quick" else [65, 130, 257, 300, 1025]
+    sizes = [130, 300, 1100] if tier == "quick" else [65, 130, 257, 300, 1023, 1024, 1025, 1100, 4100]
     for sa, sb in (("comb", "balanced"), ("star", "comb"), ("multiroot", "star"), ("balanced", "multiroot")):
         for k in sizes:
             for iam in (None, False):
@@ -426,7 +426,13 @@ def run_large(case, ctx):
     ts = build(spec, tskit)
     ctx.nt(True)
     deferred = []
-    for samples in (None, list(range(0, k, 3))):
+    smp = model.samples(spec)
+    # (also: every sample in another order - reversed, rotated - and all samples plus a non-sample node)
+    lists = [None, list(range(0, k, 3)), smp[::-1], smp[7:] + smp[:7]]
+    if len(smp) < len(spec["nodes"]) and case["iam"] is False:
+        lists.append(smp + [next(u for u in range(len(spec["nodes"])) if u not in set(smp))])
+    for samples in lists:
+        ctx.label("all_samples_permuted", samples is not None and sorted(samples) == smp and samples != smp)
         conf = dict(samples=samples, arr=False, iam=case["iam"], alleles=None, left=None, right=None, copy=None)
         check_variants_conf(ctx, tskit, np, ts, spec, conf, deferred)
         check_matrix_conf(ctx, tskit, np, ts, spec, conf)
@@ -959,6 +965,81 @@ def run_small(case, ctx):
 
 
 # ------------------------------------------------------------------ registry
+# ------------------------------------------------------------------ coordinates beyond 2^53
+def big_coord_spec():
+    """Two trees on a discrete genome of length 2^60 (breakpoint 2^59); clusters of sites at small coordinates, around
+    2^40, just above 2^53 (doubles 2 apart) and just below 2^60 (doubles 128 apart)."""
+    L = 2**60
+    nodes = [[1, 0.0, -1, -1, ""] for _ in range(4)] + [[0, 1.0, -1, -1, ""], [0, 2.0, -1, -1, ""], [0, 3.0, -1, -1, ""]]
+    h = float(2**59)
+    edges = [[0.0, float(L), 4, 0, ""], [0.0, float(L), 4, 1, ""], [0.0, float(L), 5, 2, ""], [0.0, h, 5, 3, ""],
+             [h, float(L), 5, 4, ""], [0.0, h, 6, 4, ""], [0.0, float(L), 6, 5, ""], [h, float(L), 6, 3, ""]]
+    edges.sort(key=lambda e: (nodes[e[2]][1], e[2], e[3], e[0]))
+    positions = [5, 6, 9, 17, 30] + [2**40 + k for k in (1, 2, 3, 10, 21)] + [2**53 + k for k in (2, 4, 10, 12, 30)] \
+        + [2**60 - k for k in (1920, 1792, 1664, 1280, 1152)]
+    sites, muts = [], []
+    for j, p in enumerate(positions):
+        assert int(float(p)) == p
+        sites.append([float(p), "ACGT"[j % 4], ""])
+        top = 4 if j % 2 == 0 else 5
+        muts.append([j, top, "ACGT"[(j + 1) % 4], -1, None, ""])
+        leaf = (j * 7) % 4
+        under = (top == 4 and leaf in (0, 1)) or (top == 5 and (leaf == 2 or (leaf == 3 and p < 2**59)
+                                                               or (leaf in (0, 1) and p >= 2**59)))
+        muts.append([j, leaf, "ACGT"[(j + 2) % 4], len(muts) - 1 if under else -1, None, ""])
+    return dict(L=float(L), nodes=nodes, edges=edges, sites=sites, mutations=muts, individuals=[], populations=[],
+                migrations=[]), positions
+
+
+def enum_bigcoords(tier, seed):
+    wins = [(0, 40), (3, 31), (2**40 - 5, 2**40 + 30), (2**40 + 2, 2**40 + 22),
+            (2**53 - 7, 2**53 + 40), (2**53 + 1, 2**53 + 33), (2**53 + 7, 2**53 + 27), (2**53 - 1, 2**53 + 9),
+            (2**60 - 2000, 2**60 - 1000), (2**60 - 1919, 2**60 - 1100), (2**60 - 1801, 2**60 - 1153 + 200),
+            (2**60 - 1700, 2**60)]
+    for w in wins:
+        for samples in (None, [3, 0], [6, 4, 1]):
+            yield dict(left=w[0], right=w[1], samples=samples)
+
+
+def run_bigcoords(case, ctx):
+    """alignments / haplotypes / variants on windows whose bounds are integers that a double cannot hold; all column
+    arithmetic of the oracle is done in Python integers."""
+    import numpy as np
+    import tskit
+
+    quiet()
+    spec, positions = big_coord_spec()
+    ts = build(spec, tskit)
+    li, ri = case["left"], case["right"]
+    nodes = case["samples"] if case["samples"] is not None else model.samples(spec)
+    inside = [j for j, p in enumerate(positions) if li <= p < ri]
+    ctx.nt(bool(inside))
+    ctx.label("left_not_a_double", int(float(li)) != li)
+    ctx.label("window>2^53", li >= 2**53)
+    span = ri - li
+    states = {j: site_oracle(spec, j, nodes, False) for j in inside}
+    kw = {} if case["samples"] is None else dict(samples=list(case["samples"]))
+    only_samples = all(model.is_sample(spec, u) for u in nodes)
+    for ref in ((None, ("ACGTTGCA" * (span // 8 + 1))[:span]) if only_samples else ()):
+        exp = []
+        for k, u in enumerate(nodes):
+            a = list(ref if ref is not None else "N" * span)
+            for j in inside:
+                a[positions[j] - li] = states[j][k]
+            exp.append("".join(a))
+        akw = dict(kw, left=li, right=ri)
+        if ref is not None:
+            akw["reference_sequence"] = ref
+        ctx.eq(list(ts.alignments(**akw)), exp, f"alignments(left={li}, right={ri}, samples={case['samples']}, "
+               f"reference={'given' if ref else 'none'})")
+    if only_samples:
+        hap = list(ts.haplotypes(left=li, right=ri, **kw))
+        ctx.eq(hap, ["".join(states[j][k] for j in inside) for k in range(len(nodes))], f"haplotypes(left={li}, right={ri})")
+    got = [(v.site.id, [v.alleles[g] for g in v.genotypes]) for v in
+           ts.variants(left=li, right=ri, isolated_as_missing=False, **kw)]
+    ctx.eq(got, [(j, states[j]) for j in inside], f"variants(left={li}, right={ri})")
+
+
 SUBCHECKS = [
     SubCheck("C03.variants", run_variants, strategy=variants_case, quick=5000, thorough=150000, rule=NT_RULE,
              classify=classify,
@@ -984,6 +1065,9 @@ SUBCHECKS = [
     SubCheck("C03.exhaustive_small", run_small, enumerate=enum_small, quick=1, thorough=1,
              rule="every forest on <=3 (quick) / <=4 (thorough) nodes x all sample flags x every admissible "
              "mutation list of length <=3; non-trivial = >=2 mutations or one of the classes above"),
+    SubCheck("C03.big_coords", run_bigcoords, enumerate=enum_bigcoords, quick=1, thorough=1,
+             rule="windows with at least one site, on a genome of length 2^60 with sites near 2^40, 2^53 and 2^60, window "
+             "bounds that are not doubles"),
 ]
 
 PROBES = {
